@@ -104,6 +104,61 @@ fn cache_case(case: &Value) -> Value {
     json!({"units":units,"direct_units":direct_units,"gets":gets,"gets2":gets2,"direct":direct})
 }
 
+/// One AbbreviationsCache used for several `.debug_abbrev` sections in turn: optional
+/// `set`, then `populate` calls (each with its own section and units), then `get` for
+/// every unit of the last populate and for the probe offsets, against the last section.
+/// Done twice: through `Dwarf` (pub fields swapped between populate calls) and on a bare
+/// `AbbreviationsCache`.
+fn repop_case(case: &Value) -> Value {
+    let sec_a = bytes_of(&case["secs"]["A"]);
+    let sec_b = bytes_of(&case["secs"]["B"]);
+    let codes: Vec<u64> = case["codes"].as_array().map(|a| a.iter().map(|x| x.as_u64().unwrap_or(0)).collect()).unwrap_or_default();
+    let probe: Vec<usize> = case["probe"].as_array().map(|a| a.iter().map(|x| x.as_u64().unwrap_or(0) as usize).collect()).unwrap_or_default();
+    let steps = case["steps"].as_array().cloned().unwrap_or_default();
+    let infos: Vec<Vec<u8>> = steps.iter().map(|s| bytes_of(&s["info"])).collect();
+    let sec_of = |n: &Value| -> &[u8] { if n.as_str() == Some("A") { &sec_a[..] } else { &sec_b[..] } };
+    let empty: [u8; 0] = [];
+    let mut dwarf: Dwarf<R<'_>> = Dwarf::load(|_id| -> Result<R<'_>, gimli::Error> { Ok(EndianSlice::new(&empty[..], LittleEndian)) }).unwrap();
+    let mut bare = gimli::AbbreviationsCache::new();
+    let mut bare_abbrev = DebugAbbrev::new(&empty[..], LittleEndian);
+    let mut bare_info = DebugInfo::new(&empty[..], LittleEndian);
+    for (k, st) in steps.iter().enumerate() {
+        match st["op"].as_str() {
+            Some("set") => {
+                let from = DebugAbbrev::new(sec_of(&st["from"]), LittleEndian);
+                let at = DebugAbbrevOffset(st["at"].as_u64().unwrap_or(0) as usize);
+                if let Ok(t) = from.abbreviations(DebugAbbrevOffset(st["off"].as_u64().unwrap_or(0) as usize)) {
+                    let t = std::sync::Arc::new(t);
+                    dwarf.abbreviations_cache.set::<R<'_>>(at, t.clone());
+                    bare.set::<R<'_>>(at, t);
+                }
+            }
+            Some("populate") => {
+                let strat = if st["strat"].as_str() == Some("dup") { AbbreviationsCacheStrategy::Duplicates } else { AbbreviationsCacheStrategy::All };
+                dwarf.debug_abbrev = DebugAbbrev::new(sec_of(&st["sec"]), LittleEndian);
+                dwarf.debug_info = DebugInfo::new(&infos[k][..], LittleEndian);
+                dwarf.populate_abbreviations_cache(strat);
+                bare_abbrev = DebugAbbrev::new(sec_of(&st["sec"]), LittleEndian);
+                bare_info = DebugInfo::new(&infos[k][..], LittleEndian);
+                bare.populate(strat, &bare_abbrev, bare_info.units());
+            }
+            _ => {}
+        }
+    }
+    let mut units = Vec::new();
+    let mut bare_units = Vec::new();
+    let mut it = dwarf.units();
+    while let Ok(Some(h)) = it.next() {
+        units.push(table_json(dwarf.abbreviations(&h), &codes));
+        bare_units.push(table_json(bare.get(&bare_abbrev, h.debug_abbrev_offset()), &codes));
+    }
+    let _ = &bare_info;
+    let gets: Vec<Value> = probe.iter().map(|o| table_json(dwarf.abbreviations_cache.get(&dwarf.debug_abbrev, DebugAbbrevOffset(*o)), &codes)).collect();
+    let bare_gets: Vec<Value> = probe.iter().map(|o| table_json(bare.get(&bare_abbrev, DebugAbbrevOffset(*o)), &codes)).collect();
+    let direct: Vec<Value> = probe.iter().map(|o| table_json(dwarf.debug_abbrev.abbreviations(DebugAbbrevOffset(*o)).map(std::sync::Arc::new), &codes)).collect();
+    json!({"units":units,"bare_units":bare_units,"gets":gets,"bare_gets":bare_gets,"direct":direct})
+}
+
 fn cur_json(c: &gimli::EntriesCursor<'_, R<'_>>) -> Value {
     match c.current() {
         Some(e) => entry_json(e),
@@ -265,6 +320,7 @@ fn replay(case: &Value) -> Value {
     match case["sys"].as_str() {
         Some("cache") => cache_case(case),
         Some("die") => die_case(case),
+        Some("repop") => repop_case(case),
         _ => json!({"outcome":"bad-sys"}),
     }
 }
